@@ -45,6 +45,14 @@ def hierarchies(tier):
         if tier == "quick" and factory and (overflow or noinit or key):
             continue
         out.append({"shape": shape, "ctor": ctor, "key": key, "overflow": overflow, "noinit": noinit, "factory": factory})
+        if shape in ("spec_sub", "spec_sub_plain", "spec_sub_sub"):
+            # how the spec subclass treats the inherited attribute `b` (default above: re-declares it) and whether the
+            # subclass changes the copy policy (both make the library rebuild the inherited attribute specification)
+            for sub_b, sub_dnc in (("redefault", False), ("untouched", False), ("untouched", True), ("redefault", True)):
+                if tier == "quick" and (key == "default" or (overflow and sub_dnc)):
+                    continue
+                out.append({"shape": shape, "ctor": ctor, "key": key, "overflow": overflow, "noinit": noinit, "factory": factory,
+                            "sub_b": sub_b, "sub_dnc": sub_dnc})
     return out
 
 
@@ -64,6 +72,11 @@ def classes_of(h):
                     "decl": {"a": {"ann": False, "default": 0, "init": True},           # merely re-defaulted, to a FALSY value (Base stays the owner)
                              "b": {"ann": True, "default": 12, "init": True},           # re-declared: Sub takes ownership
                              "c": {"ann": True, "default": ("factory", 13) if fac else 13, "init": True}}})
+        if h.get("sub_b") == "redefault":
+            cls[-1]["decl"]["b"] = {"ann": False, "default": 12, "init": True}  # plain `b = 12`: Base stays the owner, flags are inherited
+        elif h.get("sub_b") == "untouched":
+            del cls[-1]["decl"]["b"]
+        cls[-1]["do_not_copy"] = bool(h.get("sub_dnc"))
     if sh == "plain_sub":
         cls.append({"name": "Plain", "bases": ["Base"], "spec": False, "decl": {"b": {"ann": False, "default": 22, "init": True}}})
     if sh == "spec_sub_plain":
@@ -101,6 +114,8 @@ def source_of(h):
                 args.append(f"key={k['key']!r}")
             if k.get("overflow"):
                 args.append(f"init_overflow_attr={k['overflow']!r}")
+            if k.get("do_not_copy"):
+                args.append("do_not_copy=True")
             lines.append("@spec_class(" + ", ".join(args) + ")" if args else "@spec_class")
         lines.append(f"class {k['name']}({', '.join(k['bases'])}):" if k["bases"] else f"class {k['name']}:")
         body = []
@@ -265,6 +280,7 @@ def judge(h, final, kwargs, positional_key):
     got, ns = run_one(h, final, kwargs, positional_key)
     case = {"h": h, "final": final, "kwargs": kwargs, "positional_key": positional_key}
     sig = dict(shape=h["shape"], ctor=h["ctor"], key=h["key"], overflow=h["overflow"], noinit=h["noinit"], factory=h["factory"], final=final,
+               sub_b=h.get("sub_b", "redeclare"), sub_dnc=bool(h.get("sub_dnc")),
                kw=("bad" if any(v == "bad" for v in kwargs.values()) else "unknown" if any(k not in ATTRS for k in kwargs) else "conf"),
                positional=positional_key is not None)
     out = []
